@@ -31,7 +31,9 @@ FUZZ_RUNS = {"thorough": 20000}     # coverage-guided leg, 8 processes (vlib/fuz
 
 WIDE = ["日本", "한글", "ａｂ", "é", "a​b", "😀", "ﬁ", "İ"]
 WIDE += ["❤\ufe0f", "1\ufe0f\u20e3", "👨\u200d👩\u200d👧", "e\u0301"]     # variation-selector, keycap and ZWJ sequences, combining mark
-MULTI = ["l\nm", "first\nsecond line", "\nlead"]
+MULTI = ["l\nm", "first\nsecond line", "\nlead",
+         # every line boundary str.splitlines knows makes a cell multi-line, not only "\n"
+         "a\rb", "v\x0bt", "f\x0cf", "s\x1cs", "g\x1dg", "r\x1er", "n\x85l", "u\u2028l", "p\u2029s", "c\r\nd"]
 CTRL = ["a\tb", "x\x07y", "e\x1b[0m", "r\rs", "z\x00"]
 NAMES = ["a", "b", "c", "name", "日本", "é", "wide_column_name_abcdefgh", "x y", "items", "n1", "", " "]       # "" is a name like any other
 EXOTIC = ["complex128", "complex64", "structured", "float16", "void"]
